@@ -233,7 +233,10 @@ def run_fold_model(ctx, trees):
         for l in out.decode().split("\n"):
             if l:
                 f = [nc.canon(x) for x in l.split("\t")]
-                rows.append({"fold": f[0], "rt": f[1], "fold_orig": f[2], "rt_orig_trap": f[3], "rt_orig_wrap": f[4]})
+                if nc.MODEL_VERSION == "fixed":
+                    rows.append({"fold": f[0], "rt": f[1], "fold_orig": f[2], "rt_orig_trap": f[3], "rt_orig_wrap": f[4]})
+                else:       # compare with the models of the code before the fixes (debug build)
+                    rows.append({"fold": f[2], "rt": f[3], "fold_fixed": f[0], "rt_fixed": f[1], "rt_orig_wrap": f[4]})
         assert len(rows) == len(chunk)
         return rows
 
@@ -346,6 +349,7 @@ def run(ctx):
                        "with leaves of different kinds, or that the folder rejects")
     ctx.cov["renderings_disagree"] = prop_fail
     ctx.cov["model_impl_disagreements"] = dis
+    ctx.cov["model_version"] = nc.MODEL_VERSION
     ctx.cov["traces_validated_against_impl"] = 2 * len(model)
     for j in (0, 30, len(trees) // 2, len(trees) - 3):
         f, u = programs_for(trees[j])
